@@ -55,6 +55,11 @@ def label_covering_trees(rng, lang):
 
 def run(ctx):
     rng = ctx.rng
+    import gen_tables
+    try:
+        gen_tables.emit()
+    except Exception as e:
+        ctx.notes.append(f'table emission failed: {e}')
     ctx.lean = common.check_lean(PID, ctx.thorough)
     ctx.rule = ('(a) one small derivation per (label, symbol) that the real rule functions return over the observed rule '
                 'instances, the shipped unary tables and (ja) synthetic unary inputs of every shape; (b) the failure '
